@@ -56,11 +56,11 @@ REGISTRY = {
                 tie=['tieA_envelope_struct_uses', 'tieA_protocol_header_struct_uses', 'tieA_frame_constants', 'tieA_constant_values'], lanes=['frame/frame.unmarshal,frame.envelope'], oracles=['c06']),
     'C07': dict(mods=['C07'], thms=['C07_prefix_rejected'],
                 tie=['tieA_envelope_struct_uses', 'tieA_protocol_header_struct_uses', 'tieA_frame_constants', 'tieA_constant_values', 'tieA_frame_except_sites'], lanes=['frame/frame.envelope,frame.unmarshal.malformed'], oracles=['c07']),
-    'C08': dict(mods=['C08'], thms=['C08_value_fuel_suffices', 'C08_table_fuel_suffices', 'C08_value_fuel_monotone', 'C08_unmarshal_terminates', 'C08_progress', 'C08_flags_progress', 'C08_result_size'],
+    'C08': dict(mods=['C08', 'C08Cost'], thms=['C08_cost_same_result', 'C08_steps_linear', 'C08_table_steps_linear', 'C08_value_fuel_suffices', 'C08_table_fuel_suffices', 'C08_value_fuel_monotone', 'C08_unmarshal_terminates', 'C08_progress', 'C08_flags_progress', 'C08_result_size'],
                 tie=['tieA_table_mapping', 'tieA_content_header_struct_uses'], lanes=['dec_value:malformed', 'props/flags,props.unmarshal', 'frame/frame.unmarshal.malformed'], oracles=['c08']),
     'C09': dict(mods=['C09'], thms=['C09_inner_errors', 'C09_only_unmarshaling'],
                 tie=['tieA_frame_except_sites', 'tieA_decode_except_sites'], lanes=['dec_prim', 'dec_value:malformed', 'frame/frame.unmarshal.malformed'], oracles=['c09']),
-    'C10': dict(mods=['C10'], thms=['C10_value', 'C10_accepts_only_encodable', 'C10_field_table_domain', 'C10_args'],
+    'C10': dict(mods=['C10', 'C10Props'], thms=['C10_value', 'C10_accepts_only_encodable', 'C10_field_table_domain', 'C10_args', 'C10_props'],
                 tie=['tieA_guards', 'tieA_ladder', 'tieA_struct_formats', 'tieA_struct_uses', 'tieA_codec_calls'],
                 lanes=['enc_prim', 'enc_tint', 'enc_value:any', 'args', 'props/props.marshal,props.unmarshal'], oracles=['c10']),
     'C11': dict(mods=['C11', 'C11Nested'], thms=['C11_first_fit', 'C11_legacy', 'C11_domain', 'C11_fixed_width_guards', 'C11_fixed_width_accept', 'C11_nested_same_chain', 'C11_toggle', 'C11_legacy_tags_nested', 'C11_full_tags_nested'],
